@@ -103,6 +103,10 @@ impl Fixture {
         });
         // 4: scanned out of order with a gap (S2..S3 scanned, S0..S1 not), tip known
         mk("gap", vec![Op::Tip { h: ctip }, Op::Scan { from: FIRST + 2, to: ctip }], &|_| {});
+        // 6: mid + an application table of the kind `WalletMigrator::with_external_migrations` creates
+        mk("mid-ext", vec![Op::Tip { h: FIRST + 1 }, Op::Scan { from: FIRST, to: FIRST + 1 }], &|w| {
+            w.db.conn().execute_batch("CREATE TABLE ext_verif_kv (k TEXT PRIMARY KEY, v INTEGER NOT NULL)").expect("extension table");
+        });
 
         let mut ops: Vec<OpDef> = vec![];
         let mut add = |name: &str, pre: usize, f: Arc<OpFn>| ops.push(OpDef { name: name.to_string(), pre, f, env: 0 });
@@ -174,6 +178,24 @@ impl Fixture {
         );
         add("delete_account@full", 2, Arc::new(|w, _| e(w.db.delete_account(w.acct_b)).map(|_| String::new())));
         add("delete_account_a@full", 2, Arc::new(|w, _| e(w.db.delete_account(w.acct_a)).map(|_| String::new())));
+        // --- a wallet write paired with a write to an application table in ONE transaction
+        // (`transactionally_with_extension`): both take effect or neither does. The extension handle
+        // installs its own authorizer for its statements, so injected statement-compilation faults
+        // (class 2) reach the wallet write only; interrupts and commit vetoes cover all of it.
+        add(
+            "wallet_and_extension_write@mid-ext",
+            6,
+            Arc::new(|w, _| {
+                w.db.db_mut()
+                    .transactionally_with_extension(|wdb, ext| {
+                        wdb.update_chain_tip(BlockHeight::from_u32(FIRST + 30))?;
+                        ext.execute("INSERT INTO ext_verif_kv (k, v) VALUES ('tip', ?1)", [FIRST + 30])?;
+                        Ok::<_, zcash_client_sqlite::error::SqliteClientError>(())
+                    })
+                    .map(|_| String::new())
+                    .map_err(|e| format!("{e:?}"))
+            }),
+        );
         // --- addresses
         add("next_address@mid", 1, Arc::new(|w, _| e(w.db.get_next_available_address(w.acct_a, UnifiedAddressRequest::AllAvailableKeys)).map(|r| format!("{:?}", r.map(|x| x.1)))));
         add("reserve_ephemeral@mid", 1, Arc::new(|w, _| e(w.db.reserve_next_n_ephemeral_addresses(w.acct_a, 3)).map(|r| r.len().to_string())));
